@@ -259,18 +259,22 @@ pub fn cli_unit(ctx: &Ctx, rng: &mut Rng, o: &mut Out) {
     let named: Vec<N> = root.dfs().filter(|n| n.is_named() && n.range().len() > 0 && n.range().len() <= 160 && !n.text().contains('\n')).collect();
     let ext = src.name.rsplit('.').next().unwrap_or("txt");
     let mut found_here = 0usize;
-    for _ in 0..tries {
-      if named.is_empty() || found_here >= 3 {
+    // candidates in a random order, only those that HAVE a nested unnamed token to drop (picking
+    // nodes blindly left the quick tier without a single witness)
+    fn deep_of<'r>(pn: &N<'r>) -> Vec<N<'r>> {
+      pn.dfs()
+        .filter(|u| !u.is_named() && u.children().len() == 0 && u.range().len() >= 2 && u.parent().map(|q| q.node_id() != pn.node_id()).unwrap_or(false))
+        .collect()
+    }
+    let mut cands: Vec<&N> = named.iter().filter(|pn| !deep_of(pn).is_empty()).collect();
+    for i in (1..cands.len()).rev() {
+      cands.swap(i, rng.below(i + 1));
+    }
+    for pn in cands.into_iter().take(tries) {
+      if found_here >= 3 {
         break;
       }
-      let pn = rng.pick(&named);
-      let mut deep: Vec<N> = pn
-        .dfs()
-        .filter(|u| !u.is_named() && u.children().len() == 0 && u.range().len() >= 2 && u.parent().map(|q| q.node_id() != pn.node_id()).unwrap_or(false))
-        .collect();
-      if deep.is_empty() {
-        continue;
-      }
+      let mut deep: Vec<N> = deep_of(pn);
       deep.sort_by_key(|u| std::cmp::Reverse(u.range().len()));
       let text = pn.text().to_string();
       let Ok(pat) = Pattern::try_new(&text, src.lang) else { continue };
